@@ -320,7 +320,15 @@ Inductive corruption :=
 | XSetDel (r : name) (i : id) (b : name) (x : id)   (* entity i of root store r: drop x from string set b *)
 | XSetAdd (r : name) (i : id) (b : name) (x : id)   (* ... add x to string set b (back-references, links) *)
 | XField (r : name) (i : id) (f : name) (v : str)   (* overwrite root field f of entity i with the string v *)
-| XFieldNil (r : name) (i : id) (f : name).         (* overwrite root field f of entity i with nil *)
+| XFieldNil (r : name) (i : id) (f : name)          (* overwrite root field f of entity i with nil *)
+(* whole-bucket corruptions.  [state] does not distinguish an ABSENT bucket from an EMPTY one (a string set is a
+   list, an index is a map): the harness reaches each of the following states both by deleting the bucket and by
+   emptying it, and the real checker must treat the two alike - check_complete / fix_convergent quantify over
+   every [state], so they cover both. *)
+| XSetClear (r : name) (i : id) (b : name)          (* entity i: the whole string set b (back-reference / link / set-field bucket) gone or empty *)
+| XSClearKey (r f : name) (v : str)                 (* set index: key bucket v emptied (the bucket stays) *)
+| XSClearIdx (r f : name)                           (* set index: the whole index bucket of the symbol gone or empty *)
+| XUClearIdx (r f : name).                          (* unique index: the whole index bucket of the symbol gone or empty *)
 
 Definition corrupt (st : state) (c : corruption) : state :=
   match c with
@@ -350,6 +358,18 @@ Definition corrupt (st : state) (c : corruption) : state :=
       | Some e => set_ent st r i (ent_with_field e f FNil)
       | None => st
       end
+  | XSetClear r i b =>
+      match get_ent st r i with
+      | Some e => set_ent st r i (ent_with_set e b [])
+      | None => st
+      end
+  | XSClearKey r f v =>
+      match al_get v (sidx st r f) with
+      | Some _ => set_sidx st r f (al_put v [] (sidx st r f))
+      | None => st
+      end
+  | XSClearIdx r f => set_sidx st r f []
+  | XUClearIdx r f => set_uidx st r f []
   end.
 
 Definition corrupt_all (st : state) (cs : list corruption) : state := fold_left corrupt cs st.
